@@ -374,11 +374,58 @@ def load_known():
     return json.load(open(p))
 
 
+# files whose functions matter to a property beyond the files its anchors name
+EXTRA_FILES = {
+    "C01": ["sourcecode-parser/graph/util.go"], "C02": ["sourcecode-parser/graph/query.go", "sourcecode-parser/cmd/query.go"],
+    "C04": ["sourcecode-parser/graph/util.go"], "C05": ["sourcecode-parser/model/", "sourcecode-parser/graph/query.go"],
+    "C06": ["sourcecode-parser/model/", "sourcecode-parser/graph/query.go", "sourcecode-parser/graph/java/"],
+    "C07": ["sourcecode-parser/graph/util.go"], "C08": ["sourcecode-parser/graph/util.go"],
+    "C10": ["sourcecode-parser/graph/query.go", "sourcecode-parser/cmd/query.go", "sourcecode-parser/antlr/listener_impl.go"],
+    "C12": ["sourcecode-parser/graph/query.go", "sourcecode-parser/antlr/listener_impl.go"],
+    "C13": ["sourcecode-parser/graph/query.go", "sourcecode-parser/antlr/listener_impl.go"],
+    "C14": ["sourcecode-parser/antlr/listener_impl.go", "sourcecode-parser/cmd/query.go", "sourcecode-parser/graph/query.go"],
+    "C15": ["sourcecode-parser/graph/query.go", "sourcecode-parser/cmd/query.go", "sourcecode-parser/model/"],
+    "C16": ["sourcecode-parser/graph/query.go", "sourcecode-parser/cmd/query.go", "sourcecode-parser/model/"],
+    "C17": ["sourcecode-parser/cmd/query.go", "sourcecode-parser/graph/query.go"],
+    "C19": ["sourcecode-parser/graph/construct.go", "sourcecode-parser/graph/query.go", "sourcecode-parser/antlr/listener_impl.go"],
+}
+
+
+def changed_functions(pid):
+    """Functions of the files property `pid` is anchored in whose source differs from the tree the hand-written
+    models were last validated against (fingerprints.expected.json). Used only to deepen the search."""
+    try:
+        exp = json.load(open(os.path.join(VERIF, "fingerprints.expected.json")))
+        cur = json.load(open(os.path.join(LEAN, "Cpf", "Generated", "fingerprints.json")))
+    except Exception:
+        return []
+    files = list(EXTRA_FILES.get(pid, []))
+    try:
+        for l in open(os.path.join(VERIF, "properties.jsonl")):
+            pr = json.loads(l)
+            if pr["id"] == pid:
+                files += pr["anchors"]["files"]
+    except Exception:
+        pass
+    out = []
+    for k in sorted(set(exp) | set(cur)):
+        if ":" not in k or exp.get(k) == cur.get(k):
+            continue
+        f = k.split(":")[0]
+        if any(f == x or (x.endswith("/") and f.startswith(x)) for x in files):
+            out.append(k)
+    return out
+
+
 class Run:
     """State of one check run: proof results, counts, violations, evidence."""
 
     def __init__(self, pid, tier, seed):
         self.pid, self.tier, self.seed = pid, tier, seed
+        # depth of the generators: the quick tier deepens to the thorough sizes (without the long extras: native
+        # fuzzing, race detector, leanchecker) when a function the property depends on differs from the validated tree
+        self.depth = tier
+        self.changed = []
         self.t0 = time.time()
         self.rng = random.Random(seed * 1000003 + int(pid[1:]))
         self.known = [k for k in load_known()["findings"] if k["property"] == pid]
